@@ -538,7 +538,7 @@ func (vfs *MemFS) OpenFile(name string, flag int, perm fs.FileMode) (avfs.File, 
 		parent.mu.Lock()
 		defer parent.mu.Unlock()
 
-		if om&avfs.OpenWrite == 0 || !parent.checkPermission(avfs.OpenWrite|avfs.OpenLookup, vfs.User()) {
+		if !parent.checkPermission(avfs.OpenWrite|avfs.OpenLookup, vfs.User()) {
 			return (*MemFile)(nil), &fs.PathError{Op: op, Path: name, Err: vfs.err.PermDenied}
 		}
 
@@ -565,20 +565,22 @@ func (vfs *MemFS) OpenFile(name string, flag int, perm fs.FileMode) (avfs.File, 
 		c.mu.Lock()
 		defer c.mu.Unlock()
 
-		if !c.checkPermission(om, vfs.User()) {
-			return (*MemFile)(nil), &fs.PathError{Op: op, Path: name, Err: vfs.err.PermDenied}
-		}
-
 		if om&avfs.OpenCreateExcl != 0 {
 			return (*MemFile)(nil), &fs.PathError{Op: op, Path: name, Err: vfs.err.FileExists}
 		}
 
+		// Truncating a file requires the write permission whatever the access mode.
+		pm := om
 		if om&avfs.OpenTruncate != 0 {
-			c.truncate(0)
+			pm |= avfs.OpenWrite
 		}
 
-		if om&avfs.OpenAppend != 0 {
-			at = c.size()
+		if !c.checkPermission(pm, vfs.User()) {
+			return (*MemFile)(nil), &fs.PathError{Op: op, Path: name, Err: vfs.err.PermDenied}
+		}
+
+		if om&avfs.OpenTruncate != 0 {
+			c.truncate(0)
 		}
 
 	case *dirNode:
@@ -590,7 +592,7 @@ func (vfs *MemFS) OpenFile(name string, flag int, perm fs.FileMode) (avfs.File, 
 			return (*MemFile)(nil), &fs.PathError{Op: op, Path: name, Err: vfs.err.FileExists}
 		}
 
-		if om&avfs.OpenWrite != 0 {
+		if om&(avfs.OpenWrite|avfs.OpenCreate|avfs.OpenTruncate) != 0 {
 			return (*MemFile)(nil), &fs.PathError{Op: op, Path: name, Err: vfs.err.IsADirectory}
 		}
 
